@@ -41,4 +41,24 @@ CLAIMS = {
           "size, version/flags, reserved bits, constants, field positions, source of each value field, counted tables, length-prefixed parameter sets, descriptor lengths, track IDs vs next_track_ID. Symbolic, hence for all dimensions/rates/parameter sets. "
           "Found 9 genuine layout defects on the pinned tree: 2 repaired, 7 recorded (pinned by the golden fixture or not small).",
   "note": "Trusted: my transcription of the specifications (lib/mx/spec.py) and the interpreter. Value-level packing (language code, profile bytes) is not decided."},
+ "C01": {
+  "technique": "layout interpretation of typed HIR: symbolic file productions of both finalize functions (offset lists, schedule permutation, tables, moov) + MIR monotone-field analysis",
+  "text": "Decides the chain queued sample i -> table entry i -> file offset of its bytes for all histories and configurations: one pure schedule drives offset assignment and streaming; per track the pushed offset list, the streamed queue, "
+          "the cursor step and the stsz/stss/stts tables belong together; initial cursor == symbolic width of everything emitted before the sample region (both layouts, incl. placeholder==final moov width); per-track schedule order == queue order "
+          "(leading sort-key field must be the writer-enforced monotone one); payload converter per codec and key flag unmodified; mdat size == 8 + streamed payloads. Found and repaired the B-frame+audio chunk-offset permutation defect.",
+  "note": "Not decided: byte equality of converter outputs for concrete inputs (framing is C14). Trusted: std sort_by_key/enumerate/map/collect contracts, interpreter."},
+ "C02": {
+  "technique": "layout interpretation: derived box tree of every emitted stream vs containment/cardinality schema; symbolic width identities",
+  "text": "For every configuration at once: the box constructor writes size == 8+len(payload) == its width; every container payload is child boxes only (so sizes tile recursively for every input); each alternative of each container "
+          "matches a schema transcribed from ISO/IEC 14496-12 (mandatory boxes once, optional at most once, no strangers, one-of groups); top-level order/cardinality of progressive file, init segment (mvex/trex) and media segment; count fields == entries emitted; mdat size == 8 + payloads.",
+  "note": "32-bit size overflow is C16. Trusted: schema transcription, interpreter."},
+ "C08": {
+  "technique": "symbolic width identities and production equality on the file productions; MIR data flow of the fast_start flag",
+  "text": "moov width never depends on chunk-offset values; placeholder and final moov have identical symbolic width; offset base == static offset of the sample region in each layout; the two layouts' moov productions are identical modulo chunk-offset values for every configuration; "
+          "top-level order per layout and unmodified plumbing of the flag from the builder to the branch.",
+  "note": "R6 (u32 cursor overflow guard missing in the standard layout) is reported under C16."},
+ "C15": {
+  "technique": "layout interpretation: the sample region as a sort-permutation of the two queues; key shape analysis",
+  "text": "The sample region of every A/V layout is sorted(key)[video queue ++ audio queue] with key = (timestamp field, rank Video<Audio, queue index): by std's sort_by_key contract this is the merge by timestamp with video first on ties; the same schedule drives offsets and streaming; per-track order is queue order.",
+  "note": "Relies on the documented contract of slice::sort_by_key (stable, ordered by key)."},
 }
